@@ -7,6 +7,12 @@ vector (p, q) with  component = C*(p*cos(m phi0) + q*sin(m phi0)).  Every polar 
 cartesian2polar is folded to  sigma*sqrt(X^2+Y^2)  or  tau*arctan2(U, V)/m'.  The round trip
 reproduces  C*cos(m*(phi - phi0))  for every phi iff
       m' = m,   sigma*V = (1, 0),   sigma*tau*U = (0, 1),   {X, Y} = {U, V}.
+The magnitude is read in its spellings sqrt(x^2+y^2), (..)**0.5, hypot, |x + 1j*y|, the 2-norm of the stacked pair,
+sqrt of a sum over the stacked squares; np.angle(x + 1j*y) is arctan2(y, x).  An inverse expression built from other
+element-wise arithmetic is evaluated at sample points: a point where the round trip fails is a violation (concrete
+counterexample), agreement is an AnalysisError (nothing proven).
+
+R-ELEMENTWISE (appended below): no reduction over a coefficient array — coefficients may be series.
 """
 from __future__ import annotations
 
@@ -22,6 +28,31 @@ TOL = 1e-9
 _CONST_FUNCS = {"sqrt": math.sqrt, "arctan": math.atan, "atan": math.atan, "cos": math.cos, "sin": math.sin,
                 "tan": math.tan, "arcsin": math.asin, "arccos": math.acos, "exp": math.exp, "abs": abs,
                 "deg2rad": math.radians, "radians": math.radians, "float": float}
+
+
+# names under which an array library (or the math module) is visible: `<module>.f(x)` is the function form of f, any
+# other receiver makes `x.f()` the method form
+_ARRAY_MODULES = {"np", "numpy", "xp", "cp", "cupy", "math", "np.linalg", "numpy.linalg", "xp.linalg", "cp.linalg",
+                  "linalg", "la", "scipy.linalg"}
+# reductions that return their operand unchanged when the operand is a single number (the algebra of the round trip
+# is decided for one coefficient set; what a reduction does to a series of sets is decided by R-ELEMENTWISE)
+_SCALAR_IDENTITY_REDUCERS = {"mean", "nanmean", "sum", "nansum", "max", "min", "amax", "amin", "nanmax", "nanmin",
+                             "median", "nanmedian", "average", "prod", "nanprod"}
+
+
+def _is_module_receiver(func: ast.expr) -> bool:
+    return isinstance(func, ast.Attribute) and dotted(func.value) in _ARRAY_MODULES
+
+
+def _scalar_identity_operand(n: ast.expr) -> Optional[ast.expr]:
+    """operand of `np.mean(x[, axis])` / `x.mean([axis])` (any reduction that is the identity on one number)."""
+    if not isinstance(n, ast.Call) or last_attr(n) not in _SCALAR_IDENTITY_REDUCERS or not isinstance(n.func, ast.Attribute):
+        return None
+    if any(k.arg not in ("axis", "keepdims") for k in n.keywords):
+        return None
+    if _is_module_receiver(n.func):
+        return n.args[0] if 1 <= len(n.args) <= 2 else None
+    return n.func.value if len(n.args) <= 1 else None
 
 
 # ------------------------------------------------------------------ forward value domain
@@ -116,6 +147,8 @@ class Forward:
                 if la is not None and lb is not None and la.is_const() and lb.is_const():
                     return Lin(la.c0 ** lb.c0, {})
                 raise AnalysisError(f"{self.fname}: power of a non-constant `{norm_text(n)[:40]}`")
+        if _scalar_identity_operand(n) is not None:
+            return self.ev(_scalar_identity_operand(n))
         if isinstance(n, ast.Call) and len(n.args) == 1 and not n.keywords:
             fn = last_attr(n)
             a = self.ev(n.args[0])
@@ -143,9 +176,187 @@ class Forward:
 # ------------------------------------------------------------------ inverse value domain
 @dataclass
 class Inv:
-    kind: str  # id | mag | ang
+    kind: str  # id | mag | smag | ang | const | stack | sumsq | cplx | fn
     scale: float
-    keys: tuple  # id: (k,)  mag: (x, y) unordered  ang: (u, v) ordered
+    keys: tuple  # id: (k,)  mag: (x, y) unordered  ang: (u, v) ordered  stack/sumsq/cplx: (x, y)  fn: keys read
+    aux: object = None  # cplx: sign of the imaginary part; fn: the _Fn evaluating the expression at a sample point
+
+
+class _NotNumeric(Exception):
+    pass
+
+
+def _sq(x):
+    return x * x
+
+
+def _sign(x):
+    return (x > 0) - (x < 0)
+
+
+_NUM1 = {"abs": abs, "absolute": abs, "fabs": abs, "sqrt": math.sqrt, "square": _sq, "cos": math.cos, "sin": math.sin,
+         "tan": math.tan, "arctan": math.atan, "atan": math.atan, "exp": math.exp, "sign": _sign, "float": float,
+         "asarray": float, "array": float, "float64": float, "negative": lambda x: -x, "deg2rad": math.radians,
+         "rad2deg": math.degrees}
+_NUM2 = {"hypot": math.hypot, "arctan2": math.atan2, "atan2": math.atan2, "maximum": max, "minimum": min, "fmax": max,
+         "fmin": min, "copysign": math.copysign, "power": pow, "multiply": lambda a, b: a * b,
+         "add": lambda a, b: a + b, "subtract": lambda a, b: a - b, "divide": lambda a, b: a / b,
+         "true_divide": lambda a, b: a / b}
+_NUM_LIST = {"max": max, "amax": max, "min": min, "amin": min, "sum": sum}
+
+
+def _inv_value(inv: "Inv", sample: dict) -> float:
+    """value of an inverse-domain term at a sample point {Cartesian key: number}."""
+    g = lambda k: sample.get(k, 0.0)
+    if inv.kind == "const":
+        return inv.scale
+    if inv.kind == "id":
+        return inv.scale * g(inv.keys[0])
+    if inv.kind == "mag":
+        return inv.scale * math.hypot(g(inv.keys[0]), g(inv.keys[1]))
+    if inv.kind == "smag":
+        return inv.scale * math.copysign(math.hypot(g(inv.keys[0]), g(inv.keys[1])), g(inv.keys[2]))
+    if inv.kind == "ang":
+        return inv.scale * math.atan2(g(inv.keys[0]), g(inv.keys[1]))
+    if inv.kind == "fn":
+        return inv.scale * inv.aux(sample)
+    raise _NotNumeric(inv.kind)
+
+
+class _Fn:
+    """An expression built from whitelisted element-wise operations on the input coefficients, kept as syntax and
+    evaluated with the math module at sample points.  Two terms that differ at one sample point are different
+    functions (a concrete counterexample); agreement at the sample points proves nothing."""
+
+    def __init__(self, node: ast.expr, env: dict, in_names: set):
+        self.node, self.env, self.in_names = node, dict(env), set(in_names)
+        self.keys: set[str] = set()
+
+    def __repr__(self):
+        return f"_Fn({norm_text(self.node)})"
+
+    def __call__(self, sample) -> float:
+        return self._num(self.node, sample)
+
+    def static_keys(self) -> set:
+        """input keys the expression depends on (directly or through locals)."""
+        out: set[str] = set()
+        for x in ast.walk(self.node):
+            if isinstance(x, ast.Subscript) and isinstance(x.value, ast.Name) and x.value.id in self.in_names and \
+                    isinstance(x.slice, ast.Constant) and isinstance(x.slice.value, str):
+                out.add(x.slice.value)
+            if isinstance(x, ast.Name) and isinstance(self.env.get(x.id), Inv):
+                out |= set(self.env[x.id].keys)
+        return out
+
+    def _num(self, n: ast.expr, sample: dict) -> float:
+        if isinstance(n, ast.Constant) and isinstance(n.value, (int, float)) and not isinstance(n.value, bool):
+            return float(n.value)
+        if isinstance(n, ast.Attribute) and dotted(n) in ("np.pi", "math.pi", "numpy.pi", "xp.pi"):
+            return math.pi
+        if isinstance(n, ast.Name):
+            v = self.env.get(n.id)
+            if isinstance(v, Lin) and v.is_const():
+                return v.c0
+            if isinstance(v, Inv):
+                self.keys |= set(v.keys)
+                return _inv_value(v, sample)
+            raise _NotNumeric(n.id)
+        if isinstance(n, ast.Subscript) and isinstance(n.value, ast.Name) and n.value.id in self.in_names and \
+                isinstance(n.slice, ast.Constant) and isinstance(n.slice.value, str):
+            self.keys.add(n.slice.value)
+            return sample.get(n.slice.value, 0.0)
+        if isinstance(n, ast.UnaryOp) and isinstance(n.op, (ast.USub, ast.UAdd)):
+            v = self._num(n.operand, sample)
+            return -v if isinstance(n.op, ast.USub) else v
+        if isinstance(n, ast.BinOp):
+            a, b = self._num(n.left, sample), self._num(n.right, sample)
+            if isinstance(n.op, ast.Add):
+                return a + b
+            if isinstance(n.op, ast.Sub):
+                return a - b
+            if isinstance(n.op, ast.Mult):
+                return a * b
+            if isinstance(n.op, ast.Div):
+                return a / b
+            if isinstance(n.op, ast.Pow):
+                r = a ** b
+                if isinstance(r, complex):
+                    raise ValueError("complex power")
+                return r
+            raise _NotNumeric(type(n.op).__name__)
+        if isinstance(n, ast.Call):
+            fn = last_attr(n)
+            kws = {k.arg for k in n.keywords}
+            builtin = isinstance(n.func, ast.Name)
+            if not (builtin or _is_module_receiver(n.func)):
+                raise _NotNumeric(norm_text(n.func))
+            if fn in _NUM_LIST and len(n.args) == 1 and isinstance(n.args[0], (ast.List, ast.Tuple)) and n.args[0].elts \
+                    and kws <= {"axis"}:
+                # a reduction over a list written out in the source, for one coefficient set
+                return float(_NUM_LIST[fn](self._num(e, sample) for e in n.args[0].elts))
+            if fn == "norm" and 1 <= len(n.args) <= 3 and isinstance(n.args[0], (ast.List, ast.Tuple)) and \
+                    n.args[0].elts and kws <= {"axis", "ord"}:
+                # a vector norm of a list written out in the source, for one coefficient set
+                order = n.args[1] if len(n.args) >= 2 else next((k.value for k in n.keywords if k.arg == "ord"), None)
+                vals = [abs(self._num(e, sample)) for e in n.args[0].elts]
+                if order is None or (isinstance(order, ast.Constant) and order.value is None):
+                    return math.sqrt(sum(v * v for v in vals))
+                if dotted(order) in ("np.inf", "numpy.inf", "math.inf", "xp.inf"):
+                    return max(vals)
+                p_ = self._num(order, sample)
+                if p_ <= 0:
+                    raise _NotNumeric("norm order")
+                return sum(v ** p_ for v in vals) ** (1.0 / p_)
+            if builtin and fn in ("max", "min") and len(n.args) >= 2 and not kws:
+                return float({"max": max, "min": min}[fn](self._num(e, sample) for e in n.args))
+            if kws:
+                raise _NotNumeric("keywords")
+            if fn in _NUM1 and len(n.args) == 1:
+                return float(_NUM1[fn](self._num(n.args[0], sample)))
+            if fn in _NUM2 and len(n.args) == 2:
+                r = _NUM2[fn](self._num(n.args[0], sample), self._num(n.args[1], sample))
+                if isinstance(r, complex):
+                    raise ValueError("complex power")
+                return float(r)
+        raise _NotNumeric(type(n).__name__)
+
+
+class _Probe:
+    """sample point giving every key the same non-zero value (used to see whether an expression is evaluable)."""
+
+    @staticmethod
+    def get(key, default=0.0):
+        return 0.7321
+
+
+def _first_counterexample(keys, f, fname, show=None):
+    """f(sample) -> (got, want), numbers or tuples of numbers.  Returns (text of the sample restricted to the keys
+    that matter, got, want, sample) for the first sample point where they differ, None when they agree everywhere."""
+    evaluated = 0
+    for smp in _samples(keys):
+        try:
+            got, want = f(smp)
+        except (ValueError, ZeroDivisionError, OverflowError):
+            continue  # outside the domain of the expression: not a counterexample of the round trip by itself
+        evaluated += 1
+        g = got if isinstance(got, tuple) else (got,)
+        w = want if isinstance(want, tuple) else (want,)
+        if any(abs(a - b) > 1e-6 * (1.0 + abs(b)) for a, b in zip(g, w)):
+            txt = ", ".join(f"{k}={smp[k]:.4g}" for k in sorted(smp) if show is None or k in show)
+            return txt, got, want, smp
+    if evaluated < 8:
+        raise AnalysisError(f"{fname}: an expression of the inverse conversion cannot be evaluated at the sample points")
+    return None
+
+
+def _samples(keys) -> list:
+    """deterministic sample points: every key gets a value of either sign bounded away from zero."""
+    import random
+
+    rnd = random.Random(20240922)
+    keys = sorted(keys)
+    return [{k: rnd.choice((-1.0, 1.0)) * rnd.uniform(0.3, 2.0) for k in keys} for _ in range(24)]
 
 
 class Backward:
@@ -156,6 +367,12 @@ class Backward:
         self.reads: set[str] = set()
 
     def _read(self, n: ast.expr) -> Optional[str]:
+        inner = _scalar_identity_operand(n)
+        if inner is not None:
+            return self._read(inner)
+        if isinstance(n, ast.Call) and last_attr(n) in ("float", "asarray", "array", "float64") and len(n.args) == 1 \
+                and not n.keywords:
+            return self._read(n.args[0])
         if isinstance(n, ast.Name) and isinstance(self.env.get(n.id), Inv) and self.env[n.id].kind == "id" and \
                 abs(self.env[n.id].scale - 1.0) < TOL:
             return self.env[n.id].keys[0]
@@ -182,9 +399,148 @@ class Backward:
             return a if a is not None and a == b else None
         if isinstance(n, ast.Call) and last_attr(n) == "square" and len(n.args) == 1:
             return self._read(n.args[0])
+        if isinstance(n, ast.Call) and last_attr(n) == "power" and len(n.args) == 2 and self._const(n.args[1]) == 2.0:
+            return self._read(n.args[0])
+        return None
+
+    # ---- the two components of a pair, stacked / squared / combined into one complex number
+    def _env_pair(self, n: ast.expr, kind: str) -> Optional[Inv]:
+        if isinstance(n, ast.Name) and isinstance(self.env.get(n.id), Inv) and self.env[n.id].kind == kind and \
+                abs(self.env[n.id].scale - 1.0) < TOL:
+            return self.env[n.id]
+        return None
+
+    def _stack_pair(self, n: ast.expr) -> Optional[tuple]:
+        """(x, y) when n is the two-row array [x, y] of two input coefficients: a list / tuple display, np.array /
+        np.asarray / np.stack of one (dtype and axis arguments do not change which two coefficients are stacked;
+        whether a later reduction runs over the stacking axis is decided by R-ELEMENTWISE)."""
+        e = self._env_pair(n, "stack")
+        if e is not None:
+            return e.keys
+        if isinstance(n, (ast.List, ast.Tuple)) and len(n.elts) == 2:
+            x, y = self._read(n.elts[0]), self._read(n.elts[1])
+            return (x, y) if x is not None and y is not None else None
+        if isinstance(n, ast.Call) and last_attr(n) in ("array", "asarray", "asanyarray", "stack") and n.args and \
+                all(k.arg in ("axis", "dtype") for k in n.keywords) and (_is_module_receiver(n.func)
+                                                                         or isinstance(n.func, ast.Name)):
+            return self._stack_pair(n.args[0])
+        return None
+
+    def _squared_stack(self, n: ast.expr) -> Optional[tuple]:
+        if isinstance(n, ast.BinOp) and isinstance(n.op, ast.Pow) and self._const(n.right) == 2.0:
+            return self._stack_pair(n.left)
+        if isinstance(n, ast.BinOp) and isinstance(n.op, ast.Mult) and isinstance(n.left, ast.Name) and \
+                isinstance(n.right, ast.Name) and n.left.id == n.right.id:
+            return self._stack_pair(n.left)
+        if isinstance(n, ast.Call) and last_attr(n) == "square" and len(n.args) == 1:
+            return self._stack_pair(n.args[0])
+        if isinstance(n, ast.Call) and last_attr(n) == "power" and len(n.args) == 2 and self._const(n.args[1]) == 2.0:
+            return self._stack_pair(n.args[0])
+        return None
+
+    def _sum_of_squares(self, n: ast.expr) -> Optional[tuple]:
+        """(x, y) when n is x^2 + y^2, written as a sum of two squares or as a sum over the stacked pair."""
+        e = self._env_pair(n, "sumsq")
+        if e is not None:
+            return e.keys
+        if isinstance(n, ast.BinOp) and isinstance(n.op, ast.Add):
+            x, y = self._square_of(n.left), self._square_of(n.right)
+            return (x, y) if x is not None and y is not None else None
+        if isinstance(n, ast.Call) and last_attr(n) in ("sum", "nansum") and \
+                all(k.arg in ("axis", "keepdims") for k in n.keywords):
+            if isinstance(n.func, ast.Attribute) and not _is_module_receiver(n.func):
+                operand = n.func.value if len(n.args) <= 1 else None
+            else:
+                operand = n.args[0] if 1 <= len(n.args) <= 2 else None
+            if operand is None:
+                return None
+            if isinstance(operand, (ast.List, ast.Tuple)) and len(operand.elts) == 2:
+                x, y = self._square_of(operand.elts[0]), self._square_of(operand.elts[1])
+                return (x, y) if x is not None and y is not None else None
+            return self._squared_stack(operand)
+        return None
+
+    def _imag_term(self, n: ast.expr) -> Optional[tuple]:
+        """(key, sign) when n is  +-1j * <input key>."""
+        if isinstance(n, ast.UnaryOp) and isinstance(n.op, (ast.USub, ast.UAdd)):
+            r = self._imag_term(n.operand)
+            return None if r is None else (r[0], -r[1] if isinstance(n.op, ast.USub) else r[1])
+        if isinstance(n, ast.BinOp) and isinstance(n.op, ast.Mult):
+            for c, o in ((n.left, n.right), (n.right, n.left)):
+                sg = 1.0
+                while isinstance(c, ast.UnaryOp) and isinstance(c.op, (ast.USub, ast.UAdd)):
+                    sg, c = (-sg if isinstance(c.op, ast.USub) else sg), c.operand
+                if isinstance(c, ast.Constant) and isinstance(c.value, complex) and c.value.real == 0 and \
+                        abs(abs(c.value.imag) - 1.0) < TOL:
+                    k = self._read(o)
+                    if k is not None:
+                        return k, sg * (1.0 if c.value.imag > 0 else -1.0)
+        return None
+
+    def _complex_pair(self, n: ast.expr) -> Optional[tuple]:
+        """(x, y, sign) when n is the complex number x + sign*1j*y of two input coefficients."""
+        e = self._env_pair(n, "cplx")
+        if e is not None:
+            return e.keys + (e.aux,)
+        if isinstance(n, ast.Call) and isinstance(n.func, ast.Name) and n.func.id == "complex" and len(n.args) == 2 \
+                and not n.keywords:
+            x, y = self._read(n.args[0]), self._read(n.args[1])
+            return (x, y, 1.0) if x is not None and y is not None else None
+        if isinstance(n, ast.BinOp) and isinstance(n.op, (ast.Add, ast.Sub)):
+            flip = -1.0 if isinstance(n.op, ast.Sub) else 1.0
+            x, im = self._read(n.left), self._imag_term(n.right)
+            if x is not None and im is not None:
+                return x, im[0], flip * im[1]
+            if isinstance(n.op, ast.Add):
+                im, x = self._imag_term(n.left), self._read(n.right)
+                if x is not None and im is not None:
+                    return x, im[0], im[1]
+        return None
+
+    def _magnitude(self, n: ast.expr) -> Optional[tuple]:
+        """(x, y) when n is the element-wise magnitude sqrt(x^2 + y^2) of two input coefficients in one of its
+        spellings: sqrt / **0.5 of the sum of squares, hypot, |x + 1j*y|, the 2-norm of the stacked pair."""
+        if isinstance(n, ast.BinOp) and isinstance(n.op, ast.Pow) and self._const(n.right) == 0.5:
+            return self._sum_of_squares(n.left)
+        if not isinstance(n, ast.Call):
+            return None
+        fn = last_attr(n)
+        if fn == "sqrt" and len(n.args) == 1 and not n.keywords:
+            return self._sum_of_squares(n.args[0])
+        if fn == "power" and len(n.args) == 2 and not n.keywords and self._const(n.args[1]) == 0.5:
+            return self._sum_of_squares(n.args[0])
+        if fn == "hypot" and len(n.args) == 2 and not n.keywords:
+            x, y = self._read(n.args[0]), self._read(n.args[1])
+            return (x, y) if x is not None and y is not None else None
+        if fn in ("abs", "absolute") and len(n.args) == 1 and not n.keywords:
+            c = self._complex_pair(n.args[0])
+            return c[:2] if c is not None else None
+        if fn == "norm" and 1 <= len(n.args) <= 3 and all(k.arg in ("ord", "axis", "keepdims") for k in n.keywords):
+            order = n.args[1] if len(n.args) >= 2 else next((k.value for k in n.keywords if k.arg == "ord"), None)
+            if order is not None and not (isinstance(order, ast.Constant) and order.value is None) and \
+                    self._const(order) != 2.0:
+                return None  # another norm: not the Euclidean magnitude
+            return self._stack_pair(n.args[0])
         return None
 
     def ev(self, n: ast.expr) -> Inv:
+        try:
+            return self._ev(n)
+        except AnalysisError as err:
+            # not one of the modelled forms: keep it as a function evaluable at sample points when it is built from
+            # element-wise arithmetic only (the comparison then looks for a counterexample of the round trip)
+            f = _Fn(n, self.env, self.in_names)
+            try:
+                f(_Probe())
+            except _NotNumeric:
+                raise err
+            except (ValueError, ZeroDivisionError, OverflowError):
+                pass
+            keys = f.static_keys()
+            self.reads |= keys
+            return Inv("fn", 1.0, tuple(sorted(keys)), f)
+
+    def _ev(self, n: ast.expr) -> Inv:
         c = self._const(n)
         if c is not None:
             return Inv("const", c, ())
@@ -193,32 +549,39 @@ class Backward:
             return Inv("id", 1.0, (k,))
         if isinstance(n, ast.Name) and isinstance(self.env.get(n.id), Inv):
             return self.env[n.id]
+        mg = self._magnitude(n)
+        if mg is not None:
+            return Inv("mag", 1.0, mg)
+        sp = self._stack_pair(n)
+        if sp is not None:
+            return Inv("stack", 1.0, sp)
+        ss = self._sum_of_squares(n)
+        if ss is not None:
+            return Inv("sumsq", 1.0, ss)
+        cp = self._complex_pair(n)
+        if cp is not None:
+            return Inv("cplx", 1.0, cp[:2], cp[2])
         if isinstance(n, ast.UnaryOp) and isinstance(n.op, (ast.USub, ast.UAdd)):
             v = self.ev(n.operand)
-            return v if isinstance(n.op, ast.UAdd) else Inv(v.kind, -v.scale, v.keys)
+            return v if isinstance(n.op, ast.UAdd) else Inv(v.kind, -v.scale, v.keys, v.aux)
         if isinstance(n, ast.BinOp) and isinstance(n.op, (ast.Mult, ast.Div)):
             cl, cr = self._const(n.left), self._const(n.right)
             if isinstance(n.op, ast.Mult) and cl is not None:
                 v = self.ev(n.right)
-                return Inv(v.kind, v.scale * cl, v.keys)
+                return Inv(v.kind, v.scale * cl, v.keys, v.aux)
             if cr is not None and abs(cr) > TOL:
                 v = self.ev(n.left)
-                return Inv(v.kind, v.scale * cr if isinstance(n.op, ast.Mult) else v.scale / cr, v.keys)
+                return Inv(v.kind, v.scale * cr if isinstance(n.op, ast.Mult) else v.scale / cr, v.keys, v.aux)
         if isinstance(n, ast.Call) and not n.keywords:
             fn = last_attr(n)
-            if fn == "sqrt" and len(n.args) == 1:
-                a = n.args[0]
-                if isinstance(a, ast.BinOp) and isinstance(a.op, ast.Add):
-                    x, y = self._square_of(a.left), self._square_of(a.right)
-                    if x is not None and y is not None:
-                        return Inv("mag", 1.0, (x, y))
-            if fn == "hypot" and len(n.args) == 2:
-                x, y = self._read(n.args[0]), self._read(n.args[1])
-                if x is not None and y is not None:
-                    return Inv("mag", 1.0, (x, y))
+            if fn == "angle" and len(n.args) == 1:
+                # the argument of x + sign*1j*y is arctan2(sign*y, x) = sign*arctan2(y, x)
+                cp = self._complex_pair(n.args[0])
+                if cp is not None:
+                    return Inv("ang", cp[2], (cp[1], cp[0]))
             if fn == "copysign" and len(n.args) == 2:
                 # a signed magnitude: |.| carrying the sign of one input key
-                m_, sk = self.ev(n.args[0]), self._read(n.args[1])
+                m_, sk = self._ev(n.args[0]), self._read(n.args[1])
                 if m_.kind == "mag" and sk is not None:
                     return Inv("smag", m_.scale, m_.keys + (sk,))
             if fn in ("arctan2", "atan2") and len(n.args) == 2:
@@ -517,6 +880,21 @@ def run(ctx) -> None:
                           f"{sym} is exported as {key} but never rebuilt by cartesian2polar", key_detail="scalar")
             continue
         inv, st = back
+        if inv.kind == "fn":
+            # an element-wise expression that is not a plain copy: decided by a counterexample
+            try:
+                cex = _first_counterexample(set(cart), lambda smp: (_inv_value(inv, smp) * c, smp[key]),
+                                            c2p.qualname, show=set(inv.keys) | {key})
+            except _NotNumeric:
+                raise AnalysisError(f"{c2p.qualname}: `{norm_text(st.value)[:60]}` cannot be evaluated")
+            if cex is None:
+                raise AnalysisError(f"{c2p.qualname}: `{norm_text(st.value)[:60]}` returns {key} at every sample point "
+                                    "but is not a recognised copy (cannot be proven)")
+            ctx.violation("R-HARMONIC", f"{MOD}:scalar {sym}", c2p.loc(st),
+                          f"round trip of {sym}: exported as {key} = {c:g}*{sym} but rebuilt by "
+                          f"`{norm_text(st.value)[:60]}`; {cex[0]} gives {sym}' = {cex[1] / c:.6g} instead of "
+                          f"{cex[2] / c:.6g}", key_detail="scalar")
+            continue
         good = inv.kind == "id" and inv.keys == (key,) and abs(inv.scale * c - 1.0) < TOL
         ctx.check(good, "R-HARMONIC", f"{MOD}:scalar {sym}", c2p.loc(st),
                   f"{sym} -> {key} (x{c:g}) -> {sym} (x{inv.scale:g})",
@@ -546,6 +924,48 @@ def run(ctx) -> None:
             continue  # reported by R-KEYSETS
         (ai, ast_), (pi_, pst) = a_inv, p_inv
         problems = []
+        if "fn" in (ai.kind, pi_.kind):
+            # magnitude or angle rebuilt by element-wise arithmetic that is none of the modelled forms: evaluate the
+            # round trip Cartesian -> polar -> Cartesian at sample points.  A point where a component is not
+            # reproduced is a concrete counterexample (the forward components are an orthonormal pair of harmonics,
+            # so every Cartesian point is the image of some polar pair); agreement proves nothing.
+            vecs = {k: comps[k][3] for k in keys}
+            (p1, q1), (p2, q2) = vecs[keys[0]], vecs[keys[1]]
+            if abs(p1 * p1 + p2 * p2 - 1) > 1e-7 or abs(q1 * q1 + q2 * q2 - 1) > 1e-7 or abs(p1 * q1 + p2 * q2) > 1e-7:
+                raise AnalysisError(f"{MOD}: pair ({amp}, {ph}): forward components are not an orthonormal pair and the "
+                                    "inverse is not in a modelled form")
+
+            def both(smp, _ai=ai, _pi=pi_, _vecs=vecs, _m=m, _keys=keys):
+                c_, f_ = _inv_value(_ai, smp), _inv_value(_pi, smp)
+                got = tuple(c_ * (_vecs[k][0] * math.cos(_m * f_) + _vecs[k][1] * math.sin(_m * f_)) for k in _keys)
+                return got, tuple(smp[k] for k in _keys)
+
+            try:
+                cex = _first_counterexample(set(cart), both, c2p.qualname,
+                                            show=set(keys) | set(ai.keys if ai.kind == "fn" else ())
+                                            | set(pi_.keys if pi_.kind == "fn" else ()))
+            except _NotNumeric:
+                cex = ()
+            bad_st = ast_ if ai.kind == "fn" else pst
+            bad_sym = amp if ai.kind == "fn" else ph
+            if cex is None:
+                raise AnalysisError(f"{c2p.qualname}: {bad_sym} = `{norm_text(bad_st.value)[:60]}` reproduces the "
+                                    "components at every sample point but is not one of the recognised magnitude / "
+                                    "angle forms (cannot be proven)")
+            if cex == ():
+                problems.append(f"{amp} is rebuilt by `{norm_text(ast_.value)[:60]}` and {ph} by "
+                                f"`{norm_text(pst.value)[:60]}`: not sigma*sqrt of the squares of {sorted(keys)} with "
+                                f"tau*arctan2/m")
+            else:
+                problems.append(f"{bad_sym} is rebuilt by `{norm_text(bad_st.value)[:70]}`, which is not "
+                                + (f"sigma*sqrt({keys[0]}^2 + {keys[1]}^2)" if ai.kind == "fn" else
+                                   f"tau*arctan2 of {sorted(keys)}/m") +
+                                f": for {cex[0]} the rebuilt ({amp}, {ph}) = ({_inv_value(ai, cex[3]):.6g}, "
+                                f"{_inv_value(pi_, cex[3]):.6g}) gives back ({', '.join(keys)}) = "
+                                f"({', '.join(f'{x:.6g}' for x in cex[1])}) instead of "
+                                f"({', '.join(f'{x:.6g}' for x in cex[2])})")
+            ctx.violation("R-HARMONIC", cons, where, "; ".join(problems), key_detail="pair")
+            continue
         if ai.kind == "smag":
             problems.append(f"{amp} is rebuilt as a magnitude carrying the sign of {ai.keys[-1]} "
                             f"(`{norm_text(ast_.value)[:60]}`) while {ph} is a full-quadrant arctan2: the sign is "
@@ -675,3 +1095,305 @@ def run(ctx) -> None:  # noqa: F811
     for name in ("polar2cartesian", "cartesian2polar"):
         _fresh_result(ctx, ctx.repo.function(MOD, name))
     _inner_run_c22(ctx)
+
+
+# ---- added after the seeded change C22-r6seed0: the conversions act element-wise on series of coefficient sets
+_inner_run_c22_b = run
+
+_REDUCERS = {"sum", "nansum", "mean", "nanmean", "average", "max", "min", "amax", "amin", "nanmax", "nanmin", "prod",
+             "nanprod", "std", "nanstd", "var", "nanvar", "median", "nanmedian", "norm", "ptp", "any", "all",
+             "cumsum", "cumprod", "nancumsum", "sort", "argmax", "argmin", "count_nonzero", "trapz", "trapezoid"}
+_CONTRACTIONS = {"dot", "vdot", "inner", "matmul", "tensordot", "einsum", "trace", "outer"}
+_BUILTIN_REDUCERS = {"sum", "max", "min", "any", "all"}
+_STACK_AT_0 = {"array", "asarray", "asanyarray", "ascontiguousarray"}
+_ELEMENTWISE_FUNCS = {"abs", "absolute", "fabs", "sqrt", "square", "power", "cos", "sin", "tan", "arctan", "arctan2",
+                      "atan", "atan2", "arcsin", "arccos", "exp", "log", "hypot", "negative", "sign", "copysign",
+                      "maximum", "minimum", "fmax", "fmin", "multiply", "add", "subtract", "divide", "true_divide",
+                      "real", "imag", "conj", "conjugate", "angle", "float", "complex", "float64", "complex128",
+                      "deg2rad", "rad2deg", "radians", "degrees", "where", "nan_to_num", "mod", "remainder", "fmod"}
+_ELEMENTWISE_METHODS = {"astype", "copy", "conj", "conjugate", "real", "imag"}
+
+
+class _SeriesShapes:
+    """Which axis of an intermediate array counts the *stacked coefficients* (rows written out in the source) — as
+    opposed to the axes of a coefficient itself, which enumerate the members of a series of coefficient sets."""
+
+    def __init__(self, f):
+        self.f = f
+        self.inp = f.positional_params[0]
+        self.assigns: dict[str, list] = {}
+        self.mappings: set[str] = {self.inp}
+        opaque: set[str] = set()
+        for n in walk_no_nested(f.node):
+            if isinstance(n, ast.Assign):
+                for t in n.targets:
+                    if isinstance(t, ast.Name):
+                        self.assigns.setdefault(t.id, []).append(n.value)
+                    elif isinstance(t, (ast.Tuple, ast.List)) and isinstance(n.value, (ast.Tuple, ast.List)) and \
+                            len(t.elts) == len(n.value.elts) and all(isinstance(x, ast.Name) for x in t.elts):
+                        for x, v in zip(t.elts, n.value.elts):
+                            self.assigns.setdefault(x.id, []).append(v)
+                    elif isinstance(t, ast.Subscript) and isinstance(t.value, ast.Name):
+                        self.mappings.add(t.value.id)
+                        self.assigns.setdefault(t.value.id, []).append(n.value)
+                    else:
+                        opaque |= {x.id for x in ast.walk(t) if isinstance(x, ast.Name)}
+            elif isinstance(n, ast.AnnAssign) and isinstance(n.target, ast.Name) and n.value is not None:
+                self.assigns.setdefault(n.target.id, []).append(n.value)
+            elif isinstance(n, ast.AugAssign):
+                tn = n.target.id if isinstance(n.target, ast.Name) else (
+                    n.target.value.id if isinstance(n.target, ast.Subscript) and isinstance(n.target.value, ast.Name)
+                    else None)
+                if tn is not None:
+                    self.assigns.setdefault(tn, []).append(n.value)
+            elif isinstance(n, (ast.For, ast.comprehension)):
+                for x in ast.walk(n.target):
+                    if isinstance(x, ast.Name):
+                        self.assigns.setdefault(x.id, []).append(n.iter)
+                        opaque.add(x.id)
+            elif isinstance(n, ast.NamedExpr):
+                self.assigns.setdefault(n.target.id, []).append(n.value)
+        self.opaque = opaque
+        self.tainted_names = {self.inp}
+        changed = True
+        while changed:
+            changed = False
+            for name, vals in self.assigns.items():
+                if name not in self.tainted_names and any(self.tainted(v) for v in vals):
+                    self.tainted_names.add(name)
+                    changed = True
+
+    def tainted(self, e: ast.AST) -> bool:
+        return any(isinstance(x, ast.Name) and x.id in self.tainted_names for x in ast.walk(e))
+
+    def keys_of(self, e: ast.AST, depth: int = 0) -> set:
+        out: set[str] = set()
+        for x in ast.walk(e):
+            if isinstance(x, ast.Subscript) and isinstance(x.value, ast.Name) and x.value.id in self.mappings and \
+                    isinstance(x.slice, ast.Constant) and isinstance(x.slice.value, str):
+                out.add(x.slice.value)
+            elif isinstance(x, ast.Name) and x.id not in self.mappings and depth < 6:
+                for v in self.assigns.get(x.id, []):
+                    out |= self.keys_of(v, depth + 1)
+        return out
+
+    # ---- classification of a call
+    def reduction(self, n: ast.Call):
+        """None, or (name, operand, axis expression | None | "first") for a call that combines different elements of
+        its operand: "first" is the iteration of a builtin over the first axis."""
+        fn = last_attr(n)
+        func = n.func
+        axis_kw = next((k.value for k in n.keywords if k.arg == "axis"), None)
+        if isinstance(func, ast.Name):
+            if fn in _BUILTIN_REDUCERS:
+                if fn in ("max", "min") and len(n.args) >= 2:
+                    return None  # pairwise maximum of the arguments, element by element
+                if len(n.args) >= 1:
+                    return fn, n.args[0], "first"
+                return None
+            if fn in _REDUCERS | _CONTRACTIONS and n.args:  # `from numpy.linalg import norm`
+                return self._function_form(fn, n, axis_kw)
+            return None
+        if not isinstance(func, ast.Attribute):
+            return None
+        if _is_module_receiver(func):
+            if fn in _REDUCERS | _CONTRACTIONS and n.args:
+                return self._function_form(fn, n, axis_kw)
+            return None
+        if fn in _REDUCERS | _CONTRACTIONS and self.tainted(func.value):
+            if fn in _CONTRACTIONS:
+                return fn, func.value, "contraction"
+            if len(n.args) > 1:
+                raise AnalysisError(f"{self.f.qualname}: arguments of `{norm_text(n)[:60]}` are not modelled")
+            return fn, func.value, axis_kw if axis_kw is not None else (n.args[0] if n.args else None)
+        return None
+
+    def _function_form(self, fn, n, axis_kw):
+        if fn in _CONTRACTIONS:
+            return fn, n, "contraction"
+        pos = 2 if fn == "norm" else 1
+        if fn in ("trapz", "trapezoid", "count_nonzero", "sort") or len(n.args) > pos + 1:
+            if axis_kw is None and len(n.args) > 1:
+                raise AnalysisError(f"{self.f.qualname}: arguments of `{norm_text(n)[:60]}` are not modelled")
+            return fn, n.args[0], axis_kw
+        return fn, n.args[0], axis_kw if axis_kw is not None else (n.args[pos] if len(n.args) > pos else None)
+
+    def axis_value(self, a):
+        """None (all elements) | int | "first" | "contraction" | "other" (a tuple of axes)."""
+        if a is None or isinstance(a, str):
+            return a
+        if isinstance(a, ast.Constant) and a.value is None:
+            return None
+        if isinstance(a, ast.Constant) and isinstance(a.value, int) and not isinstance(a.value, bool):
+            return a.value
+        if isinstance(a, ast.UnaryOp) and isinstance(a.op, ast.USub) and isinstance(a.operand, ast.Constant) and \
+                isinstance(a.operand.value, int):
+            return -a.operand.value
+        if isinstance(a, ast.Tuple):
+            return "other"
+        raise AnalysisError(f"{self.f.qualname}: reduction axis `{norm_text(a)[:40]}` is not a literal")
+
+    # ---- shape of an operand
+    def shape(self, e: ast.expr, depth: int = 0):
+        """("const",) no coefficient involved | ("plain",) an element-wise function of coefficients: every axis
+        enumerates the series | ("stack", k) coefficients stacked along axis k."""
+        q = self.f.qualname
+        if depth > 12:
+            raise AnalysisError(f"{q}: definitions of a reduced array are too deep")
+        if not self.tainted(e):
+            return ("const",)
+        if isinstance(e, (ast.List, ast.Tuple)):
+            for x in e.elts:
+                if isinstance(x, ast.Starred) or self.shape(x, depth + 1)[0] == "stack":
+                    raise AnalysisError(f"{q}: nested stacking `{norm_text(e)[:60]}` is not modelled")
+            return ("stack", 0)
+        if isinstance(e, ast.Name):
+            if e.id in self.mappings or e.id in self.opaque or e.id not in self.assigns:
+                raise AnalysisError(f"{q}: a reduction over `{e.id}` (a mapping or a loop variable) is not modelled")
+            shapes = {self.shape(v, depth + 1) for v in self.assigns[e.id]}
+            if len(shapes) != 1:
+                raise AnalysisError(f"{q}: a reduced array has definitions of different layouts")
+            return shapes.pop()
+        if isinstance(e, ast.Subscript):
+            if isinstance(e.value, ast.Name) and e.value.id in self.mappings:
+                return ("plain",)
+            raise AnalysisError(f"{q}: indexing `{norm_text(e)[:50]}` inside a reduction is not modelled")
+        if isinstance(e, ast.Attribute) and e.attr in ("real", "imag"):
+            return self.shape(e.value, depth + 1)
+        if isinstance(e, (ast.BinOp, ast.UnaryOp, ast.IfExp, ast.Compare, ast.BoolOp)):
+            return self._combine([self.shape(c, depth + 1) for c in ast.iter_child_nodes(e) if isinstance(c, ast.expr)])
+        if isinstance(e, ast.Call):
+            if self.reduction(e) is not None:
+                return ("plain",)  # judged as a reduction of its own
+            fn = last_attr(e)
+            func = e.func
+            if isinstance(func, ast.Attribute) and not _is_module_receiver(func):
+                if fn == "get" and isinstance(func.value, ast.Name) and func.value.id in self.mappings:
+                    return ("plain",)
+                if fn in _ELEMENTWISE_METHODS:
+                    return self.shape(func.value, depth + 1)
+                raise AnalysisError(f"{q}: method `{fn}` inside a reduction is not modelled")
+            if fn in _STACK_AT_0 and e.args:
+                return self.shape(e.args[0], depth + 1)
+            if fn == "stack" and e.args:
+                inner = self.shape(e.args[0], depth + 1)
+                if inner != ("stack", 0) or not isinstance(e.args[0], (ast.List, ast.Tuple)):
+                    raise AnalysisError(f"{q}: `{norm_text(e)[:60]}` does not stack a written-out list")
+                ax = next((k.value for k in e.keywords if k.arg == "axis"), e.args[1] if len(e.args) > 1 else None)
+                k = 0 if ax is None else self.axis_value(ax)
+                if not isinstance(k, int):
+                    raise AnalysisError(f"{q}: stacking axis of `{norm_text(e)[:60]}` is not an integer literal")
+                return ("stack", k)
+            if fn in _ELEMENTWISE_FUNCS:
+                return self._combine([self.shape(a, depth + 1) for a in e.args])
+            raise AnalysisError(f"{q}: call `{norm_text(e)[:60]}` inside a reduction is not modelled")
+        raise AnalysisError(f"{q}: expression `{norm_text(e)[:60]}` inside a reduction is not modelled")
+
+    def _combine(self, shapes):
+        stacks = {s for s in shapes if s[0] == "stack"}
+        if len(stacks) > 1:
+            raise AnalysisError(f"{self.f.qualname}: arrays stacked along different axes are combined")
+        if stacks:
+            return stacks.pop()
+        return ("plain",) if any(s[0] == "plain" for s in shapes) else ("const",)
+
+
+def _elementwise(ctx, f) -> None:
+    sh = _SeriesShapes(f)
+    rets = [r for r in walk_no_nested(f.node) if isinstance(r, ast.Return) and r.value is not None]
+    out_names = {r.value.id for r in rets if isinstance(r.value, ast.Name)}
+    roots = []  # (value expression, statement)
+    for st in walk_no_nested(f.node):
+        if isinstance(st, (ast.Assign, ast.AugAssign, ast.AnnAssign)) and st.value is not None:
+            roots.append((st.value, st))
+        elif isinstance(st, ast.Return) and st.value is not None:
+            roots.append((st.value, st))
+    ctx.require(bool(roots), f"{f.qualname}: no value is computed")
+    n_red = 0
+    seen: set[int] = set()
+    for value, st in roots:
+        stored = None
+        if isinstance(st, ast.Assign) and len(st.targets) == 1 and isinstance(st.targets[0], ast.Subscript) and \
+                isinstance(st.targets[0].value, ast.Name) and st.targets[0].value.id in out_names and \
+                isinstance(st.targets[0].slice, ast.Constant) and isinstance(st.targets[0].slice.value, str):
+            stored = st.targets[0].slice.value
+        for n in ast.walk(value):
+            if not isinstance(n, ast.Call) or id(n) in seen:
+                continue
+            seen.add(id(n))
+            red = sh.reduction(n)
+            if red is None:
+                continue
+            name, operand, axis = red
+            if axis == "contraction":
+                if not sh.tainted(n):
+                    continue
+                n_red += 1
+                args = [a for a in ([n.func.value] if operand is not n else []) + list(n.args) if sh.tainted(a)]
+                if all(sh.shape(a) == ("plain",) for a in args):
+                    keys = sorted(sh.keys_of(n))
+                    ctx.violation("R-ELEMENTWISE", f"{f.qualname}:{stored or name + '(' + ','.join(keys) + ')'}",
+                                  f.loc(n), f"`{norm_text(n)[:70]}` contracts the coefficient arrays {keys}: for a "
+                                  "series of coefficient sets it sums over the members of the series, so the result is "
+                                  "no longer the per-member value (one coefficient set alone hides this)",
+                                  key_detail=name)
+                    continue
+                raise AnalysisError(f"{f.qualname}: contraction `{norm_text(n)[:60]}` of stacked coefficients is not "
+                                    "modelled")
+            shp = sh.shape(operand)
+            if shp[0] == "const":
+                continue
+            n_red += 1
+            ax = sh.axis_value(axis)
+            keys = sorted(sh.keys_of(operand))
+            cons = f"{f.qualname}:{stored or name + '(' + ','.join(keys) + ')'}"
+            call = norm_text(n)[:80]
+            if shp[0] == "stack":
+                k = shp[1]
+                own = (ax == k) or (ax == "first" and k == 0)
+                if own:
+                    ctx.ok("R-ELEMENTWISE", cons, f.loc(n),
+                           f"`{call}` combines the {len(keys)} stacked coefficients {keys} along the stacking axis "
+                           f"{k} only: element-wise over a series")
+                    continue
+                how = ("has no axis argument (axis=None)" if ax is None else
+                       f"runs over axis {ax}, not over the stacking axis {k}" if isinstance(ax, int) else
+                       "runs over several axes")
+                ctx.violation("R-ELEMENTWISE", cons, f.loc(n),
+                              f"`{call}` {how}: the coefficients {keys} are stacked along axis {k} and each of them may "
+                              "be an array (a series of coefficient sets, which every other operation of the conversion "
+                              "treats element by element); this call then combines ALL elements of the stacked array "
+                              "(for norm: one Frobenius norm of the 2 x n array) instead of the two components of each "
+                              "member, while the other coefficients stay per member, so the round trip no longer "
+                              "reproduces chi for the members of the series; a single coefficient set hides it "
+                              f"(give the stacking axis: axis={k})", key_detail=name)
+                continue
+            ctx.violation("R-ELEMENTWISE", cons, f.loc(n),
+                          f"`{call}` reduces over the elements of the coefficient array(s) {keys}: for a series of "
+                          "coefficient sets the result mixes the members of the series (a single number is left "
+                          "unchanged by it, which hides this), while the other coefficients stay per member, so the "
+                          "round trip no longer reproduces chi for each member", key_detail=name)
+    if not any(i.rule == "R-ELEMENTWISE" and i.construct.startswith(f.qualname + ":") for i in ctx.instances):
+        ctx.ok("R-ELEMENTWISE", f"{f.qualname}:values", f.where,
+               f"{len(roots)} value expressions: no reduction, contraction or cumulative call is applied to coefficient "
+               "values")
+
+
+def run(ctx) -> None:  # noqa: F811
+    from ..rules import deferred
+
+    ctx.rule("R-ELEMENTWISE", "every coefficient a conversion returns is an element-wise function of the input "
+             "coefficients: the conversions are built from numpy ufuncs, so a coefficient may be an array (a series of "
+             "coefficient sets) and the round trip must reproduce chi for every member.  Every call in a value "
+             "expression that combines different elements of its operand (sum / mean / max / norm / dot ... in function, "
+             "method or builtin form) is located and its operand classified by following local definitions: a "
+             "written-out stack of coefficients ([a, b], np.array, np.stack with a literal axis) may be reduced along "
+             "its stacking axis only; a reduction without axis, along another axis, or of a coefficient array itself "
+             "mixes the members of the series.  (Whether the value is the right one for a single coefficient set is "
+             "decided by R-HARMONIC, which reads such a reduction as what it does to one set.)")
+
+    def new():
+        for name in ("polar2cartesian", "cartesian2polar"):
+            _elementwise(ctx, ctx.repo.function(MOD, name))
+
+    deferred.run(ctx, new, _inner_run_c22_b)
